@@ -145,41 +145,50 @@ def plan_jobs(seed, tier):
     rnd = random.Random(seed * 7919 + 17)
     jobs = []
     if tier == 'quick':
-        shape = [(1, 6), (2, 14), (4, 24), (8, 24), (16, 20), (32, 12)]
+        shape = [(1, 4), (2, 16), (4, 26), (8, 24), (16, 18), (32, 10)]
     else:
         shape = [(1, 40), (2, 300), (3, 300), (4, 400), (8, 400), (16, 300), (32, 260)]
     for nthreads, count in shape:
         for _ in range(count):
             jobs.append(dict(id=len(jobs) + 1, seed=rnd.randrange(1 << 30), nthreads=nthreads))
+    # scripted sequential histories (one thread): both orders of the two loopers, every option value twice
+    for first, second in (('ld', 'lu'), ('lu', 'ld')):
+        items = [('req', s, oi, 'transform', None, 0) for oi in (0, 2) for s in (first, second, first)]
+        jobs.append(dict(id=len(jobs) + 1, seed=rnd.randrange(1 << 30), nthreads=1, script={'1': [items], '2': [[]]}))
     return jobs
 
 
-def _make_items(rnd, nthreads, phase, nopts):
-    """Work items of one phase, per thread."""
-    per = max(2, min(6, 36 // nthreads))
-    slots = ['pA', 'pB', 'pA8', 'q1', 'q2', 'q3', 'qB', 'hA', 'ld', 'lu']
-    hot = rnd.sample(slots, 3)          # every run has a few hot keys that everybody asks for at once
+SLOTS = ['pA', 'pB', 'pA8', 'q1', 'q2', 'q3', 'qB', 'hA', 'ld', 'lu']
+
+
+def _make_items(rnd, nthreads, slots, ois, script=None):
+    """Work items of one phase, per thread.  A job works on a few slots and option values only, so that many
+    threads ask for the same few keys at the same time."""
+    if script is not None:
+        return script
+    per = max(1, min(4, 16 // nthreads))
+    hot = rnd.sample(slots, 2)
     out = []
     for t in range(nthreads):
         items = []
         for _ in range(per):
             r = rnd.random()
-            if r < 0.06:
+            if r < 0.05:
                 items.append(('redefine',))
                 continue
-            if r < 0.14:
-                items.append(('private', rnd.choice(('plain', 'fn')), [rnd.randrange(nopts) for _ in range(rnd.choice((1, 2)))]))
+            if r < 0.11:
+                items.append(('private', rnd.choice(('plain', 'fn')), [rnd.choice(ois)]))
                 continue
-            slot = rnd.choice(hot) if rnd.random() < 0.6 else rnd.choice(slots)
-            oi = rnd.choice((0, 0, 1, 2, 3, 4)) if rnd.random() < 0.7 else 0
+            slot = rnd.choice(hot) if rnd.random() < 0.5 else rnd.choice(slots)
+            oi = rnd.choice(ois)
             entry = rnd.choice(ENTRIES)
             plan = None
             if entry == 'transform':
                 q = rnd.random()
                 if q < 0.10:
                     plan = ('fail',)
-                elif q < 0.22:
-                    plan = ('nest', rnd.choice(slots), rnd.randrange(nopts), rnd.random() < 0.25, rnd.random() < 0.5)
+                elif q < 0.24:
+                    plan = ('nest', rnd.choice(slots), rnd.choice(ois), rnd.random() < 0.25, rnd.random() < 0.5)
             items.append(('req', slot, oi, entry, plan, rnd.choice((-1, 0, 3))))
         out.append(items)
     return out
@@ -228,40 +237,50 @@ def run_job(job):
     def reference(fn, o):
         return api.PyToPy().transform(fn, conv.ProgramContext(options=o))[0]
 
-    def compare(fn, oi, g, slot, entry, x=None, val=None, memo=None):
-        """g (and/or the value obtained through a calling entry point) against a fresh conversion of fn."""
+    def compare(fn, oi, g, slot, entry, x=None, val=None, memo=None, fac=None):
+        """g (and/or the value obtained through a calling entry point) against a fresh conversion of fn.
+
+        The fresh conversion and the original are observed once per (function object, options); a returned
+        function is observed on all inputs (plus the options reaching its function scopes) the first time a
+        given factory is handed out for that function object, and on one input every further time."""
         key = (id(fn), oi)
-        if memo is not None and key in memo:
-            ref = memo[key][1]
-        else:
+        ent = memo.get(key) if memo is not None else None
+        if ent is None:
             try:
                 ref = reference(fn, opts[oi])
             except Exception as e:  # noqa: BLE001
                 raise common.MachineryError('C10 pool function %s does not convert on a fresh transpiler: %r' % (slot, e))
+            b_ref, s_ref = spy.observe(ref)
+            b_org = poolmod.behaviour(fn)
+            if b_ref != b_org:
+                raise common.MachineryError('C10 pool function %s: fresh conversion and original disagree %r / %r' % (
+                    slot, b_ref, b_org))
+            ent = dict(fn=fn, ref=ref, b=b_ref, s=s_ref, seen=set())
             if memo is not None:
-                memo[key] = (fn, ref)
-        b_ref, s_ref = spy.observe(ref)
-        b_org = poolmod.behaviour(fn)
-        if b_ref != b_org:
-            raise common.MachineryError('C10 pool function %s: fresh conversion and original disagree %r / %r' % (
-                slot, b_ref, b_org))
+                memo[key] = ent
+        b_ref, s_ref = ent['b'], ent['s']
         stats['compared'] += 1
         fam = family(slot)
         if g is not None:
-            b_g, s_g = spy.observe(g)
-            if b_g != b_ref:
+            if fac is not None and fac in ent['seen']:
+                i = stats['compared'] % len(poolmod.INPUTS)
+                b_g = poolmod.behaviour(g, inputs=poolmod.INPUTS[i:i + 1])
+                b_want, s_g, s_want = b_ref[i:i + 1], None, None
+            else:
+                b_g, s_g = spy.observe(g)
+                b_want, s_want = b_ref, s_ref
+                if fac is not None:
+                    ent['seen'].add(fac)
+            if b_g != b_want:
                 diff('c10:fresh-diff:value:%s' % fam,
                      'the function returned for a request behaves differently from a fresh conversion of that function object',
-                     slot=slot, options=oi + 1, entry=entry, returned=b_g, fresh=b_ref)
-            elif s_g != s_ref:
+                     slot=slot, options=oi + 1, entry=entry, returned=b_g, fresh=b_want)
+            elif s_g != s_want:
                 diff('c10:fresh-diff:options:%s' % fam,
                      'the function returned for a request was converted under other options than requested',
-                     slot=slot, options=oi + 1, entry=entry, returned=s_g, fresh=s_ref)
+                     slot=slot, options=oi + 1, entry=entry, returned=s_g, fresh=s_want)
         if val is not None:
-            try:
-                want = ('ok', repr(ref(x)))
-            except Exception as e:  # noqa: BLE001
-                want = ('exc', type(e).__name__)
+            want = b_ref[poolmod.INPUTS.index(x)]
             if val != want:
                 diff('c10:fresh-diff:call-value:%s' % fam,
                      'calling through %s gives another result than calling a fresh conversion' % entry,
@@ -272,7 +291,7 @@ def run_job(job):
         eid = reg.env_id(fn, create=False)
         for d in getattr(probe.tls, 'done', ()):
             if (d['cid'], d['eid'], d['oid']) == (cid, eid, oi + 1):
-                return d['g']
+                return d
         return None
 
     def build_plan(spec):
@@ -303,14 +322,16 @@ def run_job(job):
                 plan = None     # exclusion of the specification: no re-entrance on the key being converted
         probe.tls.next_plan = plan
         probe.tls.done = []
-        g = val = None
+        g = val = fac = None
         stats['requests'] += 1
         try:
             if entry == 'transform':
                 g = T.transform(fn, conv.ProgramContext(options=o))[0]
+                fac = (find_done(fn, oi) or {}).get('fac')
             elif entry == 'to_graph':
                 g = api.to_graph(fn, recursive=o.recursive,
                                  experimental_optional_features=tuple(o.optional_features) or None)
+                fac = (find_done(fn, oi) or {}).get('fac')
             elif entry == 'convert':
                 w = api.convert(recursive=o.recursive, optional_features=tuple(o.optional_features) or None,
                                 user_requested=True)(fn)
@@ -320,7 +341,8 @@ def run_job(job):
                     raise
                 except Exception as e:  # noqa: BLE001
                     val = ('exc', type(e).__name__)
-                g = find_done(fn, oi)
+                d = find_done(fn, oi) or {}
+                g, fac = d.get('g'), d.get('fac')
             else:
                 try:
                     val = ('ok', repr(api.converted_call(fn, (x,), None, options=o)))
@@ -328,17 +350,18 @@ def run_job(job):
                     raise
                 except Exception as e:  # noqa: BLE001
                     val = ('exc', type(e).__name__)
-                g = find_done(fn, oi)
+                d = find_done(fn, oi) or {}
+                g, fac = d.get('g'), d.get('fac')
         except probemod.InjectedFault:
             stats['injected'] += 1
             return
         except Exception as e:  # noqa: BLE001 - a request that raises is compared with the fresh conversion below
-            stash.append(dict(fn=fn, oi=oi, g=None, slot=slot, entry=entry, x=None, val=None, exc=e))
+            stash.append(dict(fn=fn, oi=oi, g=None, slot=slot, entry=entry, x=None, val=None, exc=e, fac=None))
             return
         finally:
             probe.tls.next_plan = None
             probe.tls.done = []
-        stash.append(dict(fn=fn, oi=oi, g=g, slot=slot, entry=entry, x=x, val=val, exc=None))
+        stash.append(dict(fn=fn, oi=oi, g=g, slot=slot, entry=entry, x=x, val=val, exc=None, fac=fac))
 
     def do_private(item):
         """A thread-private function: defined, requested, compared, dropped (its code object dies)."""
@@ -350,6 +373,7 @@ def run_job(job):
         del code
         fn = P['plain'] if which == 'plain' else P['make'](1, 5)
         del P['make'], P['make_dir']
+        pmemo = {}
         for oi in ois:
             probe.tls.next_plan = None
             probe.tls.done = []
@@ -359,8 +383,9 @@ def run_job(job):
             except Exception as e:  # noqa: BLE001
                 check_exception(fn, oi, 'private-' + which, 'transform', e)
                 continue
-            compare(fn, oi, g, 'private-' + which, 'transform')
+            compare(fn, oi, g, 'private-' + which, 'transform', memo=pmemo)
             del g
+        pmemo.clear()
         probe.tls.done = []
         probe.tls.last = None
         watch = []
@@ -396,7 +421,7 @@ def run_job(job):
                 if s['exc'] is not None:
                     check_exception(s['fn'], s['oi'], s['slot'], s['entry'], s['exc'])
                 else:
-                    compare(s['fn'], s['oi'], s['g'], s['slot'], s['entry'], s['x'], s['val'], memo)
+                    compare(s['fn'], s['oi'], s['g'], s['slot'], s['entry'], s['x'], s['val'], memo, s['fac'])
             del st[:]
         memo.clear()
 
@@ -433,11 +458,17 @@ def run_job(job):
     api._TRANSPILER = T
     try:
         probe.register_thread(checker_tid)
+        job_slots = rnd.sample(SLOTS, 5)
+        job_ois = rnd.sample(range(len(opts)), 3)
+        if 0 not in job_ois and rnd.random() < 0.5:
+            job_ois[0] = 0
+        switch = rnd.choice((1e-6, 1e-6, 1e-5, 1e-4, 5e-3))
         for phase in (1, 2):
-            per_thread = _make_items(rnd, nthreads, phase, len(opts))
+            per_thread = _make_items(rnd, nthreads, job_slots, job_ois,
+                                     (job.get('script') or {}).get(str(phase)) if job.get('script') else None)
             ths = [threading.Thread(target=worker, args=(i + 1, per_thread[i], rnd.randrange(2000)), daemon=True)
                    for i in range(nthreads)]
-            sys.setswitchinterval(1e-6)
+            sys.setswitchinterval(switch)
             for th in ths:
                 th.start()
             for th in ths:
